@@ -321,17 +321,22 @@ class BehavioralRTLIRToVVisitorL1( bir.BehavioralRTLIRNodeVisitor ):
   # visit_ZeroExt
   #-----------------------------------------------------------------------
 
+  def visit_expr_wrap( s, node ):
+    # Overridden at the level that introduces compound expressions
+    return s.visit( node )
+
   def visit_ZeroExt( s, node ):
     node.value._top_expr = True
 
-    value = s.visit( node.value )
     target_nbits = node.nbits
     current_nbits = int(node.value.Type.get_dtype().get_length())
     padded_nbits = target_nbits - current_nbits
     if padded_nbits == 0:
-      return value
-    else:
-      return f"{{ {{ {padded_nbits} {{ 1'b0 }} }}, {value} }}"
+      # nothing is added: the operand takes the place of the call and
+      # needs its own parentheses ( zext( a + b, 4 ) * c )
+      return s.visit_expr_wrap( node.value )
+    value = s.visit( node.value )
+    return f"{{ {{ {padded_nbits} {{ 1'b0 }} }}, {value} }}"
 
   #-----------------------------------------------------------------------
   # visit_SignExt
@@ -343,14 +348,15 @@ class BehavioralRTLIRToVVisitorL1( bir.BehavioralRTLIRNodeVisitor ):
   def visit_SignExt( s, node ):
     node.value._top_expr = True
 
-    value = s.visit( node.value )
     target_nbits = node.nbits
     current_nbits = int(node.value.Type.get_dtype().get_length())
     last_bit = current_nbits - 1
     padded_nbits = target_nbits - current_nbits
 
     if padded_nbits == 0:
-      return value
+      return s.visit_expr_wrap( node.value )
+
+    value = s.visit( node.value )
 
     template = "{{ {{ {padded_nbits} {{ {value}[{last_bit}] }} }}, {value} }}"
     one_bit_template = "{{ {{ {padded_nbits} {{ {_value} }} }}, {value} }}"
@@ -414,12 +420,12 @@ class BehavioralRTLIRToVVisitorL1( bir.BehavioralRTLIRNodeVisitor ):
 
   def visit_Truncate( s, node ):
     nbits = node.nbits
-    value = s.visit( node.value )
     dtype = node.value.Type.get_dtype()
     if isinstance(dtype, rdt.Vector) and dtype.get_length() > nbits:
+      value = s.visit( node.value )
       return f"{nbits}'({value})"
     else:
-      return value
+      return s.visit_expr_wrap( node.value )
 
   #-----------------------------------------------------------------------
   # visit_Reduce
